@@ -521,6 +521,34 @@ pub fn generate(thorough: bool, rng: &mut Rng, out: &mut dyn Write) {
             p.eof();
             writeln!(out, "applyfull {} {}", hex(rel), hex(&p.v)).unwrap();
         }
+        // file operations and directory chunks whose path is not an ordinary relative file name:
+        // separators only, empty, dot components, a trailing or doubled separator, an absolute
+        // path, a very long one (`paths` as hex in the case line: all bytes are the patch's)
+        // (`.` / `..` components and paths beyond PATH_MAX are left out: Base/Fs has no such paths)
+        let odd_paths: [&[u8]; 8] = [b"/", b"//", b"", b"a/", b"a//b", b"/abs/x", b"x/", b"///x"];
+        for (i, path) in odd_paths.iter().enumerate() {
+            for op in [b'A', b'D', b'R', b'M'] {
+                let mut p = PB::new();
+                p.fhdr(3);
+                if op == b'A' {
+                    p.file_op(op, if i % 2 == 0 { 0 } else { 8 }, 10, 0, path, &[(0, vec![1u8; 10])]);
+                } else {
+                    p.file_op(op, 0, 0, (i % 3) as u16, path, &[]);
+                }
+                p.file_op(b'A', 0, 3, 0, b"after.bin", &[(0, vec![2u8; 3])]);
+                p.eof();
+                writeln!(out, "apply dir - file {}", hex(&p.v)).unwrap();
+            }
+        }
+        {
+            let long: Vec<u8> = (0..3000).map(|i| if i % 200 == 199 { b'/' } else { b'a' + (i % 26) as u8 }).collect();
+            let mut p = PB::new();
+            p.fhdr(3);
+            p.file_op(b'A', 0, 4, 0, &long, &[(0, vec![3u8; 4])]);
+            p.file_op(b'D', 0, 0, 0, &long, &[]);
+            p.eof();
+            writeln!(out, "apply dir - file {}", hex(&p.v)).unwrap();
+        }
         // start trees that make individual file-system steps fail
         let trees = [
             format!("f:{}", hex(b"sqpack")),
